@@ -488,6 +488,8 @@ def check_comb(ctx, c):
 
 RULE = RULE + " " + ('Since seeded round 4 facet birth_death: species appear from nothing (` -> A`, per-environment constants incl. zero) in cells that start EMPTY, decay and diffuse, on grids and graphs; tau-leap increments (mean and dispersion) and Gillespie waiting times / class frequencies are tested exactly as in the rate facets, with the step chosen so that lambda = k0 V dt is 0.1..2 births per step.')
 
+RULE = RULE + " " + ('Since seeded round 5 gillespie_rates (and birth_death) also test, per event class with >= 300 firings, that a0 dt of the waiting times that precede events of that class has mean 1 (waiting time and event choice are independent).')
+
 FACETS = [
     Facet("legality", check_legal, strategy=strat_legal, examples=(640, 12000), shards=(16, 16), setup=sim.setup_plain, native=True, shrink=False),
     Facet("gillespie_rates", check_grates, strategy=strat_grates, examples=(320, 6400), shards=(16, 16), setup=sim.setup_plain, native=True, shrink=False),
